@@ -62,9 +62,7 @@ Proof.
 Qed.
 Lemma p_put_ctrl_kind : forall p a b, p_kind (p_put_ctrl p a b) = p_kind p.
 Proof.
-  intros. unfold p_put_ctrl. destruct (p_kind p) eqn:K; try exact K.
-  - destruct (p_ctrl p); [exact K|reflexivity].
-  - reflexivity.
+  intros. unfold p_put_ctrl. destruct (p_kind p) eqn:K; try exact K; reflexivity.
 Qed.
 Lemma per_after_kind : forall s m ptr, p_kind (per_after sc s m ptr) = p_kind (s_per s).
 Proof.
